@@ -7,7 +7,7 @@ THEOREMS = ["Rink.Spec.C08.bundled_clean", "Rink.Spec.C08.bundled_currency_clean
             "Rink.Spec.C08.bundled_nonempty", "Rink.Spec.C08.load_deterministic"]
 # native_decide (Lean 4.33) records one axiom per use, named after the theorem; #print axioms shows it
 NATIVE = (r"Lean\.ofReduceBool", r"Lean\.trustCompiler", r"Rink\.Spec\.C08\.[A-Za-z_]+\._native\.native_decide\.ax_\d+(_\d+)*")
-PREDICATES = ["fixedPointBad", "foreignDims", "quantityMismatch", "danglingAliases", "orphans"]
+PREDICATES = ["fixedPointBad", "foreignDims", "quantityMismatch", "danglingAliases", "orphans", "fixedPointSubstBad"]
 
 
 def judge(c, s):
